@@ -475,7 +475,7 @@ class PipeSpec(SeqSpec):
 
     def coq_case(self, case, obs):
         pipe = case["cfg"]["pipe"]
-        inj = "inr" if is_list_pipe(pipe) else "inl"
+        inj = "@inr pz pl" if is_list_pipe(pipe) else "@inl pz pl"
         return "(%s %s,\n %s,\n %s)" % (inj, pipe_t(pipe), prog_t(case["cfg"]["prog"]), obs_t(obs))
 
     # ------------------------------------------------------------ oracles
